@@ -10,6 +10,22 @@ NOTE = ("Trusted: Coq 8.16.1 kernel (vm_compute, no native_compute), no axioms d
         "the model (tolerance 1e-9 in the correspondence); numpy/pandas/dags behaviour is modelled, not verified.")
 
 CLAIMS = {
+    "C01": dict(
+        text="Theorems: the generic engine lemma run_rel (related inputs + relation-preserving node operations => related outputs, or "
+             "both runs fail); scalar rules vectorized with their declared dtype commute with EVERY row permutation for EVERY rule "
+             "(no type-stability side condition is left after the otypes repair); a group's reduction does not depend on the order of its "
+             "members (commutative-associative reductions; float sums in the exact-rational model); partitions of derived ids are order "
+             "free (C12, bounded-exhaustive). Tie: the real engine is run on re-ordered and re-indexed tables for every node of the "
+             "default graph.",
+        technique="Coq proof (Engine.run_rel, Perm.vectorize_declared_perm, fold1_perm) + metamorphic engine runs",
+        design="6/C01"),
+    "C02": dict(
+        text="Theorems: run_rel; row-wise cells of a population do not depend on appended rows; group entries whose id does not occur "
+             "among the other rows are unchanged; injective relabelling of ids preserves group values; wthh/bg ids of different "
+             "households/families never collide. Tie: A alone vs A+B / B+A / interleaved and random relabelling on the real engine for "
+             "every node of the default graph.",
+        technique="Coq proof (Engine.run_rel, Perm separability lemmas, Groupings) + metamorphic engine runs",
+        design="6/C02"),
     "C03": dict(
         text="Theorem (model of numpy.vectorize with the declared dtype as otypes, for every rule, table and row): the column dtype is the "
              "declared one and each cell is the rule's value for that row cast to it; the cast is the identity on values of the declared "
